@@ -114,9 +114,6 @@ func c06Check(in c06Input) (key, what string) {
 			return "", ""
 		}
 		c06Decorate(r, f, in.Dens)
-		if firstEmissionIsNewline(f) {
-			return "", ""
-		}
 		want, err, pm := printDst(f)
 		if pm != "" || err != nil {
 			return "", ""
